@@ -6,6 +6,7 @@ frames), tracks of length 0-3, track lists of <= 3 tracks (incl. empty), every t
 classes of equal dimension as mixed members ('raises or equal'); write-A-then-write-B-then-read histories on one path.
 """
 import itertools
+import math
 import os
 import shutil
 import tempfile
@@ -44,11 +45,13 @@ def catalogue():
     P2 = [[0.5, -2.25], [3.0, THIRD]]
     for m, amps in ((1, [[0.1], [-1.0]]), (2, [[0.1, -0.2], [0.0, 1.0]]), (4, [[0.1, 0.0, -0.3, THIRD], [0.0, 0.0, 0.0, 0.0]])):
         C[("PerturbedDroplet2D", 2, m)] = [dict(position=P2[i], radius=1.5 + i, interface_width=[None, 0.4][i], amplitudes=a) for i, a in enumerate(amps)]
+        C[("PerturbedDroplet2D", 2, m)].append(dict(position=P2[0], radius=0.0, interface_width=0.0, amplitudes=amps[0]))  # vanished, sharp, amplitudes kept
     P3 = [[0.5, -2.25, 1.0], [0.0, 3.0, THIRD]]
     for m, amps in ((1, [[0.2], [-0.5]]), (3, [[0.1, -0.2, 0.05], [0.0, 0.0, 1.0]])):
         C[("PerturbedDroplet3D", 3, m)] = [dict(position=P3[i], radius=1.5 + i, interface_width=[0.4, None][i], amplitudes=a) for i, a in enumerate(amps)]
     for m, amps in ((1, [[0.2], [-0.5]]), (2, [[0.1, -0.2], [0.0, THIRD]]), (3, [[0.1, 0.2, 0.3], [0.0, 0.0, -1.0]])):
         C[("PerturbedDroplet3DAxisSym", 3, m)] = [dict(position=[0.0, 0.0, [1.0, -2.5][i]], radius=1.5 + i, interface_width=[0.4, None][i], amplitudes=a) for i, a in enumerate(amps)]
+        C[("PerturbedDroplet3DAxisSym", 3, m)].append(dict(position=[0.0, 0.0, 0.5], radius=0.0, interface_width=0.0, amplitudes=amps[0]))
     return C
 
 
@@ -56,15 +59,46 @@ CAT = catalogue()
 KEYS = sorted(CAT)
 
 
-def make(key, i):
+_HOW = {"how": "init"}
+
+
+def make(key, i, how=None):
+    """catalogue value i of a class; how = 'init' (constructor), 'setters' (a neutral droplet brought to the value through the
+    property setters) or 'data' (through in-place writes to the fields of its data record): what is saved is the object's state,
+    however it was reached"""
     from droplets import droplets as dm
 
+    how = how or _HOW["how"]
     cls = getattr(dm, key[0])
     a = dict(CAT[key][i])
     a["position"] = np.array(a["position"], float)
     if "amplitudes" in a:
         a["amplitudes"] = np.array(a["amplitudes"], float)
-    return cls(**a)
+    if how == "init":
+        return cls(**a)
+    neutral = {"position": np.full(len(a["position"]), 0.25), "radius": 1.0}
+    if key[0] == "PerturbedDroplet3DAxisSym":
+        neutral["position"] = np.array([0.0, 0.0, 0.25])  # this class lives on the symmetry axis
+    if "interface_width" in a:
+        neutral["interface_width"] = 0.5
+    if "amplitudes" in a:
+        neutral["amplitudes"] = np.full(len(a["amplitudes"]), 0.05)
+    d = cls(**neutral)
+    if how == "setters":
+        d.position = a["position"]
+        d.radius = a["radius"]
+        if "interface_width" in a:
+            d.interface_width = a["interface_width"]
+        if "amplitudes" in a:
+            d.amplitudes = a["amplitudes"]
+    else:
+        d.data["position"][...] = a["position"]
+        d.data["radius"] = a["radius"]
+        if "interface_width" in a:
+            d.data["interface_width"] = math.nan if a["interface_width"] is None else a["interface_width"]
+        if "amplitudes" in a:
+            d.data["amplitudes"][...] = a["amplitudes"]
+    return d
 
 
 def blocks(tier, seed):
@@ -105,12 +139,14 @@ def cases(block):
     if k == "emulsion":
         n = len(CAT[KEYS[block["key"]]])
         for t in tuples(n, block.get("maxlen", 3)):
-            yield {"kind": k, "key": block["key"], "members": list(t), "typed": True}
+            for how in (("init", "setters", "data") if len(t) in (1, 2) else ("init",)):
+                yield {"kind": k, "key": block["key"], "members": list(t), "typed": True, "how": how}
         yield {"kind": k, "key": block["key"], "members": [], "typed": False}
     elif k == "track":
         n = len(CAT[KEYS[block["key"]]])
         for t in tuples(n, block.get("maxlen", 3)):
-            yield {"kind": k, "key": block["key"], "members": list(t), "times": block["times"], "info": len(t) == 2}
+            for how in (("init", "setters", "data") if len(t) == 2 else ("init",)):
+                yield {"kind": k, "key": block["key"], "members": list(t), "times": block["times"], "info": len(t) == 2, "how": how}
     elif k == "etc":
         # frame alphabet: untyped empty, typed empty, [v0], [v1], [v0, v1], [v1, v1, v0]
         for t in tuples(6, block.get("maxlen", 3)):
@@ -247,6 +283,9 @@ def run_case(case, ctx):
     from droplets import DropletTrack, DropletTrackList, Emulsion, EmulsionTimeCourse
 
     k = case["kind"]
+    _HOW["how"] = case.get("how", "init")
+    if _HOW["how"] != "init":
+        ctx.count("members-brought-to-their-value-after-construction")
     if k in ("emulsion", "track", "etc", "tracklist", "overwrite"):
         key = KEYS[case["key"]]
         tags = {"class": key[0], "dim": key[1], "modes": key[2], "kind": k}
@@ -355,4 +394,4 @@ def run_case(case, ctx):
 def expected_positive(tier):
     return ["C08.equal", "C08.overwrite", "C08.raise-or-equal", "non-empty-collections", "empty-collections", "unset-width-members",
             "mixture-of-empty-and-non-empty-frames", "mixture-of-empty-and-non-empty-tracks", "mixed-write-raises", "collections-with->=11-members",
-            "time-course-with-different-classes-per-frame"]
+            "time-course-with-different-classes-per-frame", "members-brought-to-their-value-after-construction"]
